@@ -811,10 +811,11 @@ SERVES = {
 # theorems and the end-to-end theorems about the whole-image model (Props/E2E.lean)
 TIE = {
     'C01': [('SrcTieKernel', 'src_C01_')],
-    'C02': [('SrcTieKernel', 'src_C01_'), ('SrcTieKernel', 'src_C14_apply'), ('E2E', 'block_transparent')],
+    'C02': [('SrcTieKernel', 'src_C01_'), ('SrcTieKernel', 'src_C14_apply'), ('E2E', 'block_transparent'),
+            ('E2ELine', 'whole_image_gain_recovers'), ('E2ELine', 'whole_image_gain_offset_recovers')],
     'C03': [('E2E', 'block_transparent'), ('E2EMask', 'whole_image_'), ('E2EMask', 'block_mask_eq_whole')],
     'C15': [('BandInfo', 'bandInfo_')],
-    'C07': [('SrcTieKernel', 'src_C01_')], 'C14': [('SrcTieKernel', 'src_C14_'), ('SrcTieGeom', 'src_C14_')],
+    'C07': [('SrcTieKernel', 'src_C01_'), ('E2ELine', 'whole_image_scale')], 'C14': [('SrcTieKernel', 'src_C14_'), ('SrcTieGeom', 'src_C14_')],
     'C11': [('SrcTieStats', 'src_C11_'), ('E2ECompare', 'compare_')], 'C12': [('SrcTieStats', 'src_C12_')], 'C05': [('SrcTieGeom', 'src_C05_'), ('SrcTieGeom', 'src_C06_block'), ('E2E', 'block_transparent'), ('E2E', 'partitions_agree'),
             ('E2ESrc', 'block_transparent_src_grid'), ('E2ESrc', 'partitions_agree_src_grid'), ('E2ESrc', 'correctedSrcGrid_eq_on')],
     'C06': [('SrcTieGeom', 'src_C06_')], 'C16': [('SrcTieGeom', 'src_C16_')], 'C18': [('SrcTieGeom', 'src_C18_')],
